@@ -135,41 +135,53 @@ def scanString (T : LexTables) (quote : Char) : SMode â†’ LState â†’ List Char â
 
 /-! ### numbers -/
 
+/-- `scanNumber()`, part 1b: after a leading `0`, `x` / `o` / `b` choose the digit class -/
+def numberPrefix (T : LexTables) (s : LState) (rest : List Char) : List Char Ã— LState Ã— List Char :=
+  let (x, s1, r1) := accept T.hexMark s rest
+  if x then (T.hexDigits, s1, r1) else
+  let (o, s2, r2) := accept T.octMark s1 r1
+  if o then (T.octDigits, s2, r2) else
+  let (b, s3, r3) := accept T.binMark s2 r2
+  if b then (T.binDigits, s3, r3) else (T.decDigits, s3, r3)
+
+/-- `scanNumber()`, part 1: `digits := "0123456789_"; if l.accept("0") { â€¦ }` -/
+def numberDigits (T : LexTables) (s : LState) (rest : List Char) : List Char Ã— LState Ã— List Char :=
+  let (z, s, rest) := accept T.zero s rest
+  if z then numberPrefix T s rest else (T.decDigits, s, rest)
+
+/-- `scanNumber()`, part 2: `if l.accept(".") { if l.peek() == '.' { restore; return true }; l.acceptRun(digits) }`;
+`none` = a range operator follows: `(end, loc, prev)` go back to where they were before the dot -/
+def numberFraction (T : LexTables) (digits : List Char) (s : LState) (rest : List Char) :
+    Option (LState Ã— List Char) :=
+  let (d, s1, r1) := accept T.dotC s rest
+  if d then
+    let (p, s2, r2) := peek s1 r1
+    if p = some '.' then none else some (acceptRun digits s2 r2)
+  else some (s1, r1)
+
+/-- `scanNumber()`, part 3: `if l.accept("eE") { l.accept("+-"); l.acceptRun(digits) }` -/
+def numberExponent (T : LexTables) (digits : List Char) (s : LState) (rest : List Char) : LState Ã— List Char :=
+  let (e, s1, r1) := accept T.expMark s rest
+  if e then
+    let (_, s2, r2) := accept T.signs s1 r1
+    acceptRun digits s2 r2
+  else (s1, r1)
+
 /-- `scanNumber()` -/
 def scanNumber (cc : CharClass) (T : LexTables) (s : LState) (rest : List Char) : Bool Ã— LState Ã— List Char :=
-  let (z, s, rest) := accept T.zero s rest
-  let (digits, s, rest) :=
-    if z then
-      let (x, s1, r1) := accept T.hexMark s rest
-      if x then (T.hexDigits, s1, r1) else
-      let (o, s2, r2) := accept T.octMark s1 r1
-      if o then (T.octDigits, s2, r2) else
-      let (b, s3, r3) := accept T.binMark s2 r2
-      if b then (T.binDigits, s3, r3) else (T.decDigits, s3, r3)
-    else (T.decDigits, s, rest)
-  let (s, rest) := acceptRun digits s rest
-  let saved := s
-  let savedRest := rest
-  let (d, s, rest) := accept T.dotC s rest
-  let dotted : Option (LState Ã— List Char) :=
-    if d then
-      let (p, s1, r1) := peek s rest
-      if p = some '.' then none        -- a range operator follows: undo the dot
-      else some (acceptRun digits s1 r1)
-    else some (s, rest)
-  match dotted with
-  | none => (true, { s with word := saved.word, loc := saved.loc, prev := saved.prev }, savedRest)
-  | some (s, rest) =>
-    let (e, s, rest) := accept T.expMark s rest
-    let (s, rest) :=
-      if e then
-        let (_, s1, r1) := accept T.signs s rest
-        acceptRun digits s1 r1
-      else (s, rest)
-    let (p, s, rest) := peek s rest
+  let (digits, s0, r0) := numberDigits T s rest
+  let (s1, r1) := acceptRun digits s0 r0
+  match numberFraction T digits s1 r1 with
+  | none =>
+    -- `l.loc, l.prev, l.end = loc, prev, end`; `width` keeps the value of the last `next` (1)
+    (true, { s1 with width := 1 }, r1)
+  | some (s2, r2) =>
+    let (s3, r3) := numberExponent T digits s2 r2
+    -- `if IsAlphaNumeric(l.peek()) { l.next(); return false }`
+    let (p, s4, r4) := peek s3 r3
     match p with
-    | some c => if cc.isAlphaNumeric c then (false, (next s rest).2.1, (next s rest).2.2) else (true, s, rest)
-    | none => (true, s, rest)
+    | some c => if cc.isAlphaNumeric c then (false, (next s4 r4).2.1, (next s4 r4).2.2) else (true, s4, r4)
+    | none => (true, s4, r4)
 
 /-- state `number` -/
 def numberState (cc : CharClass) (T : LexTables) (s : LState) (rest : List Char) : Step :=
